@@ -603,11 +603,11 @@ func (g *Gen) typedFill(steps []Step, vars []string, partial bool) []KV {
 		var a Arg
 		k := kind[v]
 		switch {
-		case g.chance(0.05):
+		case !g.plainFill && g.chance(0.05):
 			a = Arg{T: 'o'}
 		case strings.HasPrefix(v, "..."):
 			a = Arg{T: 'i', IK: KInt, I: int64(g.pick(3))}
-		case k != "A" && g.chance(0.1):
+		case !g.plainFill && k != "A" && g.chance(0.1):
 			// a string renames the variable: to a new name, or to one the template already uses
 			g.count("c09:rename")
 			nm := g.freshName()
@@ -634,7 +634,11 @@ func (g *Gen) typedFill(steps []Step, vars []string, partial bool) []KV {
 			a = Arg{T: '8', U: g.f64Bits()}
 		default:
 			// a list variable: an item (possibly bringing its own variable), or a new name
-			switch g.pick(3) {
+			sel := g.pick(3)
+			if g.plainFill {
+				sel = 1
+			}
+			switch sel {
 			case 0:
 				a = Arg{T: 's', S: g.freshName()} // renames the variable
 			case 1:
@@ -1069,11 +1073,12 @@ func suiteC16(c *Ctx) {
 	for i := 0; i < n; i++ {
 		g := c.gen()
 		t := g.tree(treeOpts{depth: g.pick(4), vars: g.chance(0.8), ellipsis: g.chance(0.4), maxLeaf: 7})
+		mi := -1
 		if g.chance(0.5) {
 			if g.chance(0.5) {
-				g.anyMsg(t)
+				mi = g.anyMsg(t)
 			} else {
-				g.hsmsMsg(t)
+				mi = g.hsmsMsg(t)
 			}
 		}
 		if g.chance(0.3) {
@@ -1082,6 +1087,32 @@ func suiteC16(c *Ctx) {
 			if it, ok := ex.item(t); ok {
 				g.add(Step{Op: "FI", Ref: t, Map: g.typedFill(g.steps[:t+1], it.Variables(), true)})
 			}
+		}
+		if mi >= 0 && g.chance(0.5) {
+			// the message itself filled (completely, as a rule) after it has been looked at, then addressed:
+			// what was true of the template (it has variables, it does not encode) is not true of the result
+			ex := &Exec{}
+			ex.Run(g.steps)
+			if m, ok := ex.msg(mi); ok {
+				base := mi
+				if g.chance(0.6) {
+					// the template is addressed and its wait bit decided first: it is complete but for its variables
+					base = g.add(Step{Op: "SW", Ref: base, B: m.FunctionCode()%2 == 1 && g.chance(0.5)})
+					base = g.add(Step{Op: "SS", Ref: base, Sid: g.pick(65536), Sys: g.sysBytes()})
+				}
+				g.plainFill = g.chance(0.6) // every variable gets a value of its kind: the result has none left
+				f := g.add(Step{Op: "FM", Ref: base, Map: g.typedFill(g.steps[:t+1], m.Variables(), !g.plainFill && g.chance(0.2))})
+				g.plainFill = false
+				if g.chance(0.7) {
+					w := g.add(Step{Op: "SW", Ref: f, B: g.chance(0.5)})
+					g.add(Step{Op: "SS", Ref: w, Sid: g.pick(65536), Sys: g.sysBytes()})
+				}
+			}
+		}
+		if g.chance(0.1) {
+			// the same name twice among the direct children of one list: refused
+			n := g.freshName()
+			g.add(Step{Op: "NL", Args: []Arg{{T: 's', S: n}, {T: 'r', Ref: t}, {T: 's', S: n}}})
 		}
 		c.emit(Case{"listing", g.steps, g.chance(0.35)})
 	}
@@ -1180,6 +1211,13 @@ func monitorC16(c *Ctx, id string, cs Case, e *Exec, final []string) {
 			if empty != (len(vars) > 0) && f["str"] != "x:-" {
 				c.hit(id, cs, "encodable-iff", fmt.Sprintf("entry %d: vars %v bytes %s", i, vars, short(f["bytes"])))
 			}
+		} else if dm, ok := e.Pool[i].(*ast.DataMessage); ok {
+			// a message encodes iff it has no variables, its wait bit is decided and it is addressed
+			complete := dm.WaitBit() != "optional" && dm.SessionID() != -1
+			empty := f["bytes"] == "-"
+			if complete && empty != (len(vars) > 0) {
+				c.hit(id, cs, "encodable-iff-message", fmt.Sprintf("entry %d: vars %v, session id %d, wait bit %s, bytes %s", i, vars, dm.SessionID(), dm.WaitBit(), short(f["bytes"])))
+			}
 		}
 		// printed order
 		sb := f["str"]
@@ -1210,7 +1248,17 @@ func monitorC16(c *Ctx, id string, cs Case, e *Exec, final []string) {
 				stray = true
 			}
 		}
-		if !stray && strings.Join(pv, " ") != strings.Join(disp, " ") {
+		// an empty item node placed in a list is listed under the name "" and printed as an empty line; no other
+		// object has an unnamed variable
+		hasEmptyNode := false
+		for _, st := range cs.Steps {
+			if st.Op == "NE" {
+				hasEmptyNode = true
+			}
+		}
+		if stray && !hasEmptyNode {
+			c.hit(id, cs, "unnamed-variable", fmt.Sprintf("entry %d: Variables() %q, printed %v", i, vars, pv))
+		} else if !stray && strings.Join(pv, " ") != strings.Join(disp, " ") {
 			c.hit(id, cs, "printed-order", fmt.Sprintf("entry %d: Variables() %v, printed %v", i, disp, pv))
 		}
 	}
